@@ -64,6 +64,8 @@ def grammarScope : List (String × Macro.Rules) :=
 fresh syntax scope over the bundled forms) and return the first `define-library` of that name -/
 def factoryOfText (name : LibName) (text : String) : Except SErr Factory :=
   let s := Read.ofText text.toList
+  -- `Lexer::without_locations`: the tokens carry no location (lexer errors keep theirs)
+  let s := { s with toks := s.toks.map (fun t => { t with loc := none }) }
   let rec go : Nat → Read.PState → Xform.SynEnv → Except SErr Factory
     | 0, _, _ => .error (.fuel, none)
     | fuel + 1, s, env =>
